@@ -419,6 +419,7 @@ def _e2e_case(seed):
     params = H.make_params(strategy)
     isoforms = H.make_gene(rng)
     rng3 = random.Random(seed * 131 + 17)
+    rng4 = random.Random(seed * 257 + 41)
     if rng3.random() < .08:
         # a read that is ambiguous between an isoform and the same isoform with 1-3 further upstream exons (the two number their introns
         # differently) and that skips an annotated micro-exon of 13-25 bp: the correction must use the events of the isoform whose
@@ -442,6 +443,27 @@ def _e2e_case(seed):
             read = read[:j - up + rng3.randint(1, 2)]   # the read ends soon after the skipped exon
         read[0] = (read[0][0] + rng3.randint(5, 30), read[0][1])
         kind, tid = "ambiguous_skipped_micro_exon", "T1/T2"
+        gi = H.gene_info_of(isoforms, params.delta)
+    elif rng4.random() < .06:
+        # one intron of the only isoform displaced as a whole, its two sites by different amounts in the same direction (lengths within
+        # 30 bp): whatever is done about it, no site may be moved further than max_intron_shift (own generator and own gene)
+        k = rng4.randint(3, 5)
+        q, pool = 1000, []
+        for _ in range(k):
+            a = q + rng4.randint(400, 900)
+            b = a + rng4.randint(200, 320)
+            pool.append((a, b))
+            q = b
+        strand = rng4.choice("+-")
+        isoforms = [("T1", strand, list(pool))]
+        mis = getattr(params, "max_intron_shift", 60)
+        d1, d2 = rng4.choice([(mis - 15, mis + 15), (mis + 15, mis - 15), (mis - 20, mis - 5), (mis + 5, mis + 25), (10, 25)])
+        sign = rng4.choice([-1, 1])
+        i = rng4.randrange(0, k - 1)
+        read = list(pool)
+        read[i] = (read[i][0], read[i][1] + sign * d1)
+        read[i + 1] = (read[i + 1][0] + sign * d2, read[i + 1][1])
+        kind, tid = "uneven_intron_displacement", "T1"
         gi = H.gene_info_of(isoforms, params.delta)
     elif rng.random() < .2:
         # an isoform with an annotated micro-intron (5-40 bp), and reads aligned straight through it - as an inner block, or as a short
@@ -515,6 +537,12 @@ def _e2e_case(seed):
                     if site not in own and site not in annotated:
                         problems.append("splice site %d is neither the read's nor annotated" % site)
     events = [e.event_type.name for m in ra.isoform_matches[:1] for e in m.match_subclassifications]
+    if kind == "uneven_intron_displacement" and corrected and not problems and len(corrected) == len(read):
+        mis = getattr(params, "max_intron_shift", 60)
+        for k_ in range(len(read) - 1):
+            moved = max(abs(corrected[k_][1] - read[k_][1]), abs(corrected[k_ + 1][0] - read[k_ + 1][0]))
+            if moved > max(mis, params.delta):
+                problems.append("a splice site of intron %d was moved by %d bp, the tolerance for a shifted intron is %d (events %s)" % (k_, moved, mis, events))
     if corrected and not problems and not any(("terminal" in e and "exon" in e) or "fake" in e or "micro" in e for e in events):
         # a read keeps its start and end unless a terminal-exon correction applies
         if (corrected[0][0], corrected[-1][1]) != (read[0][0], read[-1][1]):
@@ -528,7 +556,7 @@ def replay_e2e(d):
     return (not p), "seed %s %s: %s" % (d["inputs"]["seed"], desc, p or "valid")
 
 
-@bounded("C14.corrected_end_to_end", ["C14"], shards=8, note="reads derived from annotated isoforms by 12 kinds of perturbation (reads ambiguous between two isoforms that number their introns differently and skipping a micro-exon, truncation, jitter, "
+@bounded("C14.corrected_end_to_end", ["C14"], shards=8, note="reads derived from annotated isoforms by 13 kinds of perturbation (an intron displaced unevenly as a whole: no site moved beyond max_intron_shift; reads ambiguous between two isoforms that number their introns differently and skipping a micro-exon, truncation, jitter, "
          "terminal exons misplaced into the neighbouring intron on either or both sides, skipped exon, fake terminal micro-exon, retention, "
          "intron shift, novel exon; plus reads running through an annotated micro-intron as an inner or as a short terminal block) go through the real AlignmentInfo -> profiles -> LongReadAssigner -> ExonCorrector under all six "
          "strategies: corrected blocks must be positive, ascending, non-overlapping; strategy none must leave the alignment unchanged; "
